@@ -279,3 +279,93 @@ Proof.
     injection H as <- <-. simpl. assert (NM : thr s t <> TMain) by congruence.
     split; [|okb B]. eapply minv_mon; [apply minv_thr; [exact K|exact NM|discriminate..]|reflexivity..].
 Qed.
+
+Lemma mstep_loop s m h s' evs : SInv s -> MInv s m -> okbad m ->
+  step s (LLoop h) = Some (s', evs) -> MInv s' (mon_run m evs) /\ okbad (mon_run m evs).
+Proof.
+  intros I K B H. unfold step in H. destruct (h_loop (hs s h)) eqn:EL; try discriminate H.
+  - destr H. injection H as <- <-. simpl. split; [mframe K|exact B].
+  - destruct (h_pub (hs s h)) eqn:P; injection H as <- <-; simpl; [|split; [mframe K|exact B]].
+    assert (K' : MInv (set_h s h (hs s h <| h_loop := LWgDone |>) <| pubClosed := upd (pubClosed s) p true |>)
+                      (m <| m_pubclosed := upd (m_pubclosed m) p true |>)).
+    { assert (K0 : MInv (set_h s h (hs s h <| h_loop := LWgDone |>)) m) by mframe K.
+      dK K0. constructor; simpl in *; auto.
+      intros p'. unfold upd. destruct (Nat.eqb p' p); auto. }
+    match goal with |- context [if ?c then _ else _] => destruct c end.
+    + split; [exact K'|okb B].
+    + split; [now apply minv_bad|]. apply okbad_bad; auto.
+  - destruct (hwg s); injection H as <- <-; simpl; (split; [mframe K|exact B]).
+  - destr H. injection H as <- <-. simpl. split; [mframe K|exact B].
+  - injection H as <- <-. simpl. split; [mframe K|exact B].
+Qed.
+
+Lemma mstep_watch s m c s' evs : SInv s -> MInv s m -> okbad m ->
+  step s (LWatch c) = Some (s', evs) -> MInv s' (mon_run m evs) /\ okbad (mon_run m evs).
+Proof.
+  intros I K B H. unfold step in H. destruct (wat s) eqn:E; try discriminate H.
+  5: { destruct (cl_step s OWatch p c) as [[s1 p']|] eqn:CL; [|discriminate].
+       pose proof (cl_mframe _ _ _ _ _ _ CL) as (F1 & F2 & F3 & F4 & F5 & F6 & F7 & F8 & F9 & F10).
+       destruct p'; injection H as <- <-; simpl; (split; [|exact B]); (eapply minv_frame; [exact K|simpl; auto..]). }
+  all: destr H; injection H as <- <-; simpl; (split; [mframe K|exact B]).
+Qed.
+
+Lemma mon_run_app m a b : mon_run m (a ++ b) = mon_run (mon_run m a) b.
+Proof. unfold mon_run. apply fold_left_app. Qed.
+
+Lemma minv_main_gen s s' m : MInv s m ->
+  nexth s' = nexth s -> hs s' = hs s -> pubClosed s' = pubClosed s -> thr s' = thr s -> isRunning s' = isRunning s ->
+  maint s' = maint s -> mainp s <> RNone -> mainp s' <> RNone ->
+  (main_past_lock (mainp s') = true -> m_n_at_run m <= run_n s') -> MInv s' m.
+Proof.
+  intros K E1 E2 E3 E4 E5 E6 N N' P. dK K. constructor; rewrite ?E1, ?E2, ?E3, ?E4, ?E5, ?E6; auto.
+  destruct K10 as [A B]. split; auto.
+Qed.
+
+Lemma mstep_main s m c s' evs : SInv s -> MInv s m -> okbad m ->
+  step s (LMain c) = Some (s', evs) -> MInv s' (mon_run m evs) /\ okbad (mon_run m evs).
+Proof.
+  intros I K B H. unfold step in H. destruct (mainp s) eqn:E; try discriminate H.
+  - (* RWatch *) destr H; injection H as <- <-; simpl; (split; [|exact B]);
+    (eapply minv_main_gen; [exact K|reflexivity..| | |]; simpl; rewrite ?E; try discriminate).
+  - (* RRH *)
+    destruct (rh_step s OMain PRun p c) as [[[s1 p'] e1]|] eqn:RH; [|discriminate].
+    assert (Hh : rhl p = true -> holder s OMain PRun p) by (intros R; apply holder_main; auto).
+    destruct (rh_minv s m OMain PRun p c s1 p' e1 I K B Hh RH) as [K1 B1].
+    pose proof (rh_mframe _ _ _ _ _ _ _ _ RH) as (F1 & F2 & F3 & F4 & F5 & F6 & F7 & F8 & F9 & F10).
+    assert (N1 : mainp s1 <> RNone) by (rewrite F7, E; discriminate).
+    assert (P12 := k_atrun2 _ _ K1). assert (P11 := k_atrun _ _ K1). rewrite F7, E in P12. simpl in P12.
+    assert (PL : rhl p' = true -> p' <> HLoop -> rhl p = true).
+    { unfold rh_step in RH. destruct p, c; try discriminate RH; destr RH; injection RH as _ <- _; simpl; auto; congruence. }
+    assert (PR : p' = HRet true -> rhl p = true).
+    { unfold rh_step in RH. destruct p, c; try discriminate RH; destr RH; injection RH as _ <- _; simpl; auto; discriminate. }
+    destruct p' as [| | | | | |[]].
+    all: try (destruct p; injection H as <- <-; (split; [|exact B1]);
+              (eapply minv_main_gen; [exact K1|reflexivity..|exact N1| |]; simpl; try discriminate;
+               try (intros _; rewrite ?F1; first [lia | apply P12; reflexivity | apply P12; apply PL; [reflexivity|discriminate] | discriminate
+                      | exfalso; unfold rh_step in RH; destruct c; try discriminate RH; destr RH; try discriminate RH; injection RH; intros; congruence]))).
+    all: try solve [injection H as <- <-; split; [|exact B1];
+      eapply minv_main_gen; [exact K1|reflexivity..|exact N1| |]; simpl; try discriminate;
+      intros _; apply P12; apply PR; reflexivity].
+    all: try solve [injection H as <- <-; rewrite mon_run_app; simpl; split; [|okb B1];
+      assert (K2 : MInv (s1 <| rcancel := true |> <| mainp := RDone false |>) (mon_run m e1))
+        by (eapply minv_main_gen; [exact K1|reflexivity..|exact N1| |]; simpl; try discriminate);
+      dK K2; constructor; simpl in *; auto; intros _; rewrite F6; apply (i_isrun _ I); rewrite E; discriminate].
+    injection H as <- <-. rewrite mon_run_app. simpl.
+    assert (K2 : MInv (s1 <| rcancel := true |> <| mainp := RDone false |>) (mon_run m e1)).
+    { eapply minv_main_gen; [exact K1|reflexivity..|exact N1| |]; simpl; try discriminate. }
+    split; [|okb B1]. clear K1.
+    dK K2. constructor; simpl in *; auto. intros _. rewrite F6. apply (i_isrun _ I). rewrite E. discriminate.
+  - destr H. injection H as <- <-. simpl. split; [|exact B].
+    assert (P12 := k_atrun2 _ _ K). rewrite E in P12.
+    eapply minv_main_gen; [exact K|reflexivity..| | |]; simpl; rewrite ?E; try discriminate. auto.
+  - destr H. injection H as <- <-. simpl. split; [|exact B].
+    assert (P12 := k_atrun2 _ _ K). rewrite E in P12.
+    eapply minv_main_gen; [exact K|reflexivity..| | |]; simpl; rewrite ?E; try discriminate. auto.
+  - destr H. injection H as <- <-. simpl.
+    assert (N : mainp s <> RNone) by (rewrite E; discriminate).
+    destruct (k_main2 _ _ K N) as [M2 _]. rewrite M2. simpl. split; [|okb B].
+    assert (P12 := k_atrun2 _ _ K). rewrite E in P12.
+    assert (K2 : MInv (s <| mainp := RDone true |>) m).
+    { eapply minv_main_gen; [exact K|reflexivity..| | |]; simpl; rewrite ?E; try discriminate. auto. }
+    dK K2. constructor; simpl in *; auto. intros _. apply (i_isrun _ I). rewrite E. discriminate.
+Qed.
